@@ -17,6 +17,8 @@ A visit returns `hit` = "a `return` of the current function was visited inside";
 `create_guard_now` (`guard`) and `return_used` (`used`) of its block.  Loops: the test / EXTRA_LOOP_TEST is
 extended with `not do_return and …` when `return_used` of the block CONTAINING the loop is set after visiting
 the loop body (so also when an earlier statement of that block contained a return).
+`visit_Try` wraps the visited `orelse` in `if not do_return:` when the try body lexically contains a `return` of
+the current function (`_has_own_return`).
 `self.state[_Function]` — `(do_return_var_name, retval_var_name)` per `FunctionDef`; both names come from
 `new_symbol` on entering the function (`do_return` first), before its body is visited.
 -/
@@ -156,6 +158,26 @@ structure Cfg where
   allowMissingReturn : Bool := true
 
 mutual
+/-- `_has_own_return`: a `return` of the enclosing function occurs in the statements (nested `def`/`class` are
+skipped; `body`, `orelse`, `finalbody` and the handlers' bodies of everything else are searched). -/
+def hasOwnReturnS : Stmt → Bool
+  | .ret _ _ => true
+  | .functionDef .. => false
+  | .classDef .. => false
+  | .for_ _ _ _ body orelse _ _ => hasOwnReturnB body || hasOwnReturnB orelse
+  | .while_ _ _ body orelse => hasOwnReturnB body || hasOwnReturnB orelse
+  | .if_ _ _ body orelse => hasOwnReturnB body || hasOwnReturnB orelse
+  | .with_ _ _ body _ => hasOwnReturnB body
+  | .try_ _ body handlers orelse finalbody =>
+      hasOwnReturnB body || hasOwnReturnB orelse || hasOwnReturnB finalbody || hasOwnReturnB handlers
+  | .handler _ _ _ body => hasOwnReturnB body
+  | _ => false
+def hasOwnReturnB : List Stmt → Bool
+  | [] => false
+  | s :: rest => hasOwnReturnS s || hasOwnReturnB rest
+end
+
+mutual
 /-- `self.visit(stmt)`: `(replacement, hit)`; `used` = `return_used` of the enclosing block before the visit. -/
 def visitS (c : Cfg) (f : Option Fn) (used : Bool) : Stmt → NSt → (List Stmt × Bool) × NSt
   | .ret _ v, ns => (([returnRepl f v], true), ns)
@@ -178,8 +200,11 @@ def visitS (c : Cfg) (f : Option Fn) (used : Bool) : Stmt → NSt → (List Stmt
       let ((body', h), ns1) := visitBlk c f false false body ns
       (([.with_ i items body' false], h), ns1)
   | .try_ i body handlers orelse finalbody, ns =>
+      -- the else clause only runs if the try block ran to its end: a return inside the try block skips it
+      let guardOrelse := !orelse.isEmpty && hasOwnReturnB body
       let ((body', h1), ns1) := visitBlk c f false false body ns
-      let ((orelse', h2), ns2) := visitBlk c f false false orelse ns1
+      let ((orelse0, h2), ns2) := visitBlk c f false false orelse ns1
+      let orelse' := if guardOrelse then [ifNot (Fn.drName f) orelse0] else orelse0
       let ((finalbody', h3), ns3) := visitBlk c f false false finalbody ns2
       let ((handlers', h4), ns4) := visitGen c f used handlers ns3
       (([.try_ i body' handlers' orelse' finalbody'], h1 || h2 || h3 || h4), ns4)
